@@ -31,6 +31,35 @@ func assertFunctions(fns []*funcDef) error {
 	return nil
 }
 
+// assertNoNullElements rejects null entries in the lists of the definition;
+// they decode to nil pointers that the builder would dereference.
+func assertNoNullElements(def *definition) error {
+	steps := append([]*stepDef{}, def.Steps...)
+	for _, h := range []*stepDef{def.HandlerOn.Exit, def.HandlerOn.Success, def.HandlerOn.Failure, def.HandlerOn.Cancel} {
+		if h != nil {
+			steps = append(steps, h)
+		}
+	}
+	conds := append([]*conditionDef{}, def.Preconditions...)
+	for _, s := range steps {
+		if s == nil {
+			return errNullElement
+		}
+		conds = append(conds, s.Preconditions...)
+	}
+	for _, c := range conds {
+		if c == nil {
+			return errNullElement
+		}
+	}
+	for _, f := range def.Functions {
+		if f == nil {
+			return errNullElement
+		}
+	}
+	return nil
+}
+
 // assertStepDef validates the step definition.
 func assertStepDef(def *stepDef, funcs []*funcDef) error {
 	// Step name is required.
